@@ -7,7 +7,7 @@
       which REPLAYS the held messages through the graph's entry points — signed messages through
       the signed entry points (that is the point of the authenticity theorem);
     - rapid gossip sync ([lightning-rapid-gossip-sync/src/processing.rs]) as a pure function from
-      a parsed snapshot to the unsigned graph operations it performs ([rgs_steps]).
+      a parsed snapshot to the unsigned graph operations it performs ([rgs_apply]).
 
     The graph itself only ever changes through [step] of [Model/Gossip.v]: every function here
     returns, next to its result, the list of synchronous ops it pushed through the graph, and the
